@@ -1,18 +1,22 @@
 """C14 - multi-file mode partitions types by crate and imports cross-crate references.
-Proof: Props/C14.v (31 theorems: partition = find_crate_name of the path, every file holds exactly the declarations of
+Proof: Props/C14.v (37 theorems: partition = find_crate_name of the path, every file holds exactly the declarations of
 its crate's sources, union over the files = the single-file run; imports sound unconditionally - an import names a
 TYPE of its module, never a const -, complete on dom_C14 = named references (serde-renamed targets included: the import
 names the generated name) and references covered by a glob import,
 good_C14 holds of the model for every workspace and every iteration order, the import list used_imports builds does not
 depend on the iteration order of the import set (as a set of pairs and as a value); one witness per open finding class, one regression pin per class repaired in
-/repo: C14-glob, C14-glob-order, C14-glob-const, C14-renamed-import).
+/repo: C14-glob, C14-glob-order, C14-glob-const, C14-renamed-import, C14-kotlin-import-prefix; for Kotlin the import
+block is one line `import <package>.<module>.<prefix><name>` per pair and the module's file declares that very class,
+C14_kotlin_import_block / C14_kotlin_imports_name_declared_classes).
 Correspondence, through the REAL BINARY with `-d`: generated workspaces of 1-5 crates (directory names with
 dashes / underscores / digits, files at depth 0-3 under <crate>/src, files outside any src, nested
 src/../src), cross-crate references introduced by every `use` form of the property and by qualified
 paths, serde-renamed targets, type mappings, same-named types, ignored and unknown crates.
 Observed per language (all six): the set of files written and their names; the definitions in each file
 (union over files = the definitions of the single-file `-o` run on the same tree); for TypeScript and
-Kotlin the import statements.  Compared with (a) the extracted model byte for byte (whole files, all six
+Kotlin the import statements.  Kotlin runs twice, without and WITH a prefix (`--kotlin-prefix KP`): the import reader strips
+the prefix (a Kotlin import names prefix + generated name - an imported name that lacks the prefix is kept, marked, and matches
+nothing), and every imported name must be DECLARED in the file of the module it is imported from (closed world, both languages).  Compared with (a) the extracted model byte for byte (whole files, all six
 languages), (b) the extracted Spec.C14Spec predicates evaluated on the OBSERVED import pairs (sound;
 complete on dom_C14; finding classes).  Where the model takes a hash-iteration order as an argument the
 model is evaluated under several orders and the binary is run repeatedly: only the same-name fallback (C14-same-name)
@@ -22,9 +26,21 @@ import concurrent.futures, json, os, pathlib, re, shutil, subprocess
 import vf, progs, back
 from vf import S, Lst, sx_opt
 
+KT_PREFIX = 'KP'
+# the first component is a LABEL: `kotlin+prefix` is the language kotlin under `--kotlin-prefix KP` (base() gives the language)
 LANGS = [('typescript', 'ts', [], {}), ('kotlin', 'kt', ['--java-package', 'p'], {'package': 'p'}), ('swift', 'swift', [], {}),
-         ('scala', 'scala', ['--scala-package', 'p'], {'package': 'p'}), ('go', 'go', ['--go-package', 'p'], {'package': 'p'}), ('python', 'py', [], {})]
-IMPORT_LANGS = ('typescript', 'kotlin')
+         ('scala', 'scala', ['--scala-package', 'p'], {'package': 'p'}), ('go', 'go', ['--go-package', 'p'], {'package': 'p'}), ('python', 'py', [], {}),
+         ('kotlin+prefix', 'kt', ['--java-package', 'p', '--kotlin-prefix', KT_PREFIX], {'package': 'p', 'prefix': KT_PREFIX})]
+IMPORT_LANGS = ('typescript', 'kotlin', 'kotlin+prefix')
+NO_PREFIX_MARK = '<unprefixed>'
+
+
+def base(lang):
+    return lang.split('+')[0]
+
+
+def prefix_of(lang):
+    return KT_PREFIX if lang.endswith('+prefix') else ''
 CRATE_DIRS = ['alpha', 'beta-core', 'gamma_util', 'op-proxy2', 'x9', 'data-model', 'net_io', 'a1-b2_c3', 'delta', 'my-crate', 'core2', 'zeta_9-x', 'k-8s', 'u_i',
               'two-dash-crate', 'x-y-z', 'q--r']
 # module directories below src; the last ones are named like crates the import collector ignores when they are the BASE of a path
@@ -49,6 +65,7 @@ NOT_DEFS = {'typescript': {'ReviverFunc', 'ReplacerFunc'}, 'scala': {'UByte', 'U
 
 
 def definitions(lang, text):
+    lang = base(lang)
     out = []
     for m in DEF_RE[lang].finditer(text):
         g = [x for x in m.groups() if x is not None]
@@ -60,9 +77,19 @@ def definitions(lang, text):
     return sorted(out)
 
 
+def raw_imports_of(lang, text):
+    """(module, name as printed) of the import statements of one generated file"""
+    if base(lang) == 'kotlin':
+        return [(m.group(1), m.group(2)) for m in re.finditer(r'^import p\.([^.\n]+)\.(\S+)$', text, re.M)]
+    return imports_of(lang, text)
+
+
 def imports_of(lang, text):
-    """(module, name) pairs of the import statements of one generated file"""
+    """(module, GENERATED name) pairs of the import statements of one generated file.  Kotlin prints prefix + generated name
+    (Spec.C14KotlinSpec.c14_kt_import_line): the prefix is stripped; a printed name that lacks it stands for no generated name"""
     pairs = []
+    pfx = prefix_of(lang)
+    lang = base(lang)
     if lang == 'typescript':
         for m in re.finditer(r'^import \{ (.*?) \} from "\./(.*?)";$', text, re.M):
             for n in m.group(1).split(', '):
@@ -70,7 +97,8 @@ def imports_of(lang, text):
                     pairs.append((m.group(2), n))
     elif lang == 'kotlin':
         for m in re.finditer(r'^import p\.([^.\n]+)\.(\S+)$', text, re.M):
-            pairs.append((m.group(1), m.group(2)))
+            nm = m.group(2)
+            pairs.append((m.group(1), nm[len(pfx):] if nm.startswith(pfx) else NO_PREFIX_MARK + nm))
     return pairs
 
 
@@ -371,7 +399,15 @@ def corpus():
         w.mappings = mappings or {}
         w.tags.add('corpus:' + name)
         out.append(w)
-    mk('two-crates', {'a/src/lib.rs': A, 'b/src/m/x.rs': 'use a::A1;\nuse a::{A3};\n#[typeshare]\npub struct B1 { pub f: A1, pub g: Vec<A3>, pub h: a::inner::A1 }\n'})
+    # former witness of C14-kotlin-import-prefix (under --kotlin-prefix KP b.kt said `import p.a.A1` while a.kt declares
+    # `data class KPA1`), repaired in /repo (kotlin.rs write_imports prints the prefix): it must PASS in the run `kotlin+prefix`;
+    # the second one imports a struct, a unit enum, an algebraic enum, a JvmInline alias and a plain alias (none serde-renamed)
+    mk('kotlin-import-prefix', {'a/src/lib.rs': '#[typeshare]\npub struct A1 { pub x: u8 }\n', 'b/src/lib.rs': 'use a::A1;\n#[typeshare]\npub struct B1 { pub f: A1 }\n'})
+    mk('kotlin-import-prefix-kinds', {'a/src/lib.rs': '#[typeshare]\npub struct S1 { pub x: u8 }\n#[typeshare]\npub enum U1 { Red, Green }\n'
+                                                      '#[typeshare]\n#[serde(tag = "t", content = "c")]\npub enum E1 { V0(u8), V1 { f: String } }\n'
+                                                      '#[typeshare(kotlin = "JvmInline")]\npub struct N1(String);\n#[typeshare]\npub type L1 = Vec<u8>;\n',
+                                      'b/src/lib.rs': 'use a::{S1, U1, E1, N1, L1};\n#[typeshare]\npub struct B1 { pub s: S1, pub u: U1, pub e: Option<E1>, pub n: N1, pub l: L1 }\n'})
+    mk('two-crates', {'a/src/lib.rs': A, 'b/src/m/x.rs':'use a::A1;\nuse a::{A3};\n#[typeshare]\npub struct B1 { pub f: A1, pub g: Vec<A3>, pub h: a::inner::A1 }\n'})
     # former witness of C14-renamed-import (a serde-renamed type of another crate was referenced under its new name and never
     # imported), repaired in /repo (reconcile.rs:71: the import set is put back with the generated names): it must PASS, and so
     # must every other way of naming a renamed type of another crate
@@ -480,6 +516,7 @@ def corpus():
 # ------------------------------------------------------------------ running the real binary
 def run_binary(args):
     tree, lang, ext, extra, cfgfile, multi = args
+    lang = base(lang)
     out = vf.tmpdir()
     if multi:
         cmd = [str(vf.TYPESHARE), '--lang', lang, '-d', str(out / 'gen')] + extra
@@ -527,7 +564,7 @@ def lang_cfg(lang, cfg, ws):
 def model_request(lang, cfg, order, entries, obs):
     files = Lst(entries, lambda e: f'({Lst(e[0], S)} {e[1]} {e[2]})')
     o = 'none' if obs is None else '(some ' + Lst(sorted(obs.items()), lambda kv: f'({S(kv[0])} {Lst(kv[1], lambda p: f"({S(p[0])} {S(p[1])})")})') + ')'
-    return f'(c14 {lang} {back.cfg_sx(cfg)} (n{order[0]} n{order[1]} n{order[2]}) {files} {o})'
+    return f'(c14 {base(lang)} {back.cfg_sx(cfg)} (n{order[0]} n{order[1]} n{order[2]}) {files} {o})'
 
 
 def decode_model(m):
@@ -558,8 +595,9 @@ def run(chk):
                 'struct variants, a type alias or a newtype - whose member types refer to types of other crates / other files of the same crate; each reference is introduced by one of: use d::..::N, grouped use d::{..}, nested use d::m::{z::{N}, x::M}, '
                 'glob (plain, below modules, inside a group; freely mixed with explicit imports of the same crate), qualified path d::..::N, crate:: / super:: / self:: (use or path), unknown crate, std/serde_json (ignored crates); 25% with a type mapping on a '
                 'referenced type, 25% (>=3 crates) with a same-named type in two crates; files outside src, nested src/x/src, src/src; plus a hand-written corpus with '
-                'one workspace per finding class (open or repaired) and domain boundary. Every workspace is run through the real binary in all six languages with -d and with -o; '
+                'one workspace per finding class (open or repaired) and domain boundary. Every workspace is run through the real binary in all six languages (Kotlin twice: without and with --kotlin-prefix KP) with -d and with -o; '
                 'workspaces with the same-name fallback or with a glob next to an explicit import of the same crate 4-12 times (TypeScript, Kotlin): only the former may vary. '
+                'Kotlin import names are read with the prefix stripped and every printed import must name a class the module\'s file declares. '
                 'non-trivial = distinct (workspace, language) with at least one cross-crate reference or a corpus case')
     chk.assumptions = ['syn is not modelled: the model receives the AST (items, use trees, every syn::Path) produced by harness/libdrive/src/ast.rs from the same text',
                        'the directory walk (ignore rules, symlinks, *.rs filter) is not modelled: the model is given the list of .rs files the generator wrote',
@@ -728,7 +766,25 @@ def run(chk):
                                     chk.count('unimported_outside_domain')
                             elif r['elsewhere'] and r['dom'] and r['unique']:
                                 bad.append((f'{c}: {r["generated"]} is also imported from {r["elsewhere"]}', None))
-                    # sound against what the implementation itself defined in the module's file (TypeScript names are the generated names)
+                    # sound against what the implementation itself DECLARED in the module's file, by the printed names (TypeScript:
+                    # the generated names; Kotlin: prefix + generated name - C14_kotlin_imports_name_declared_classes)
+                    if base(lang) == 'kotlin':
+                        for fname, text in impl['files'].items():
+                            for mod, nm in raw_imports_of(lang, text):
+                                chk.count('kotlin_imports_resolved_closed_world')
+                                target = impl['files'].get(mod + '.kt')
+                                declared = {x for _, x in definitions(lang, target)} if target is not None else set()
+                                if nm in declared:
+                                    continue
+                                # the one class the theorem leaves out: a plain typealias of a serde-renamed alias is declared under
+                                # prefix + RUST name (open finding C09-kotlin-alias, recorded and reproduced under C09; not C14's subject)
+                                pfx = prefix_of(lang)
+                                al = [o for k, o, r in m0['files'].get(mod + '.kt', {}).get('decls', []) if pfx + r == nm and o != r]
+                                if al and any(('typealias', pfx + o) in definitions(lang, target or '') for o in al):
+                                    chk.count('kotlin_import_of_renamed_typealias(C09-kotlin-alias)')
+                                    continue
+                                bad.append((f'{fname} says `import p.{mod}.{nm}` but {mod}.kt declares no class {nm}'
+                                            + (f' (the classes of that file carry the prefix {pfx}: regression of the fixed finding C14-kotlin-import-prefix?)' if pfx and pfx + nm in declared else ''), None))
                     if lang == 'typescript':
                         for fname, text in impl['files'].items():
                             for mod, nm in imports_of(lang, text):
